@@ -111,6 +111,13 @@ def mid(m):
     return "%s_%d_%s" % (m["file"].replace("src/", "").replace("/", "-").replace(".rs", ""), m["line"], m["op"])
 
 
+CHK = os.path.join(SW, "checks.json")
+
+
+def load_chk():
+    return json.load(open(CHK)) if os.path.exists(CHK) else {}
+
+
 def load_idx():
     return json.load(open(IDX)) if os.path.exists(IDX) else {}
 
@@ -206,7 +213,8 @@ def pcheck(jobs, sel):
     import threading
     lock = threading.Lock()
     ix = load_idx()
-    todo = [k for k in sorted(ix) if ix[k]["screen"] == "survives" and ((sel and k in sel) or (not sel and "checks" not in ix[k]))]
+    done = load_chk()
+    todo = [k for k in sorted(ix) if ix[k]["screen"] == "survives" and ((sel and k in sel) or (not sel and k not in done))]
     print("to check:", len(todo), flush=True)
 
     def worker(w):
@@ -234,10 +242,9 @@ def pcheck(jobs, sel):
                         break
                 sh("patch -R -p1 < %s" % os.path.join(SW, k + ".diff"), cwd=base + "/repo")
             with lock:
-                ix2 = load_idx()
-                ix2[k]["checks"] = res
-                ix2[k]["caught"] = any(isinstance(v, dict) and v.get("exit") == 1 for v in res.values())
-                save_idx(ix2)
+                ck = load_chk()
+                ck[k] = {"checks": res, "caught": any(isinstance(v, dict) and v.get("exit") == 1 for v in res.values())}
+                json.dump(ck, open(CHK, "w"), indent=1, sort_keys=True)
         shutil.rmtree(base, ignore_errors=True)
 
     with ThreadPoolExecutor(jobs) as ex:
@@ -251,6 +258,14 @@ def report():
     for r in ix.values():
         by[r["screen"]] = by.get(r["screen"], 0) + 1
     print("screened %d: %s" % (tot, by))
+    ck = load_chk()
+    an = json.load(open(os.path.join(SW, "analysis.json"))) if os.path.exists(os.path.join(SW, "analysis.json")) else {}
+    for k, v in ck.items():
+        if k in ix:
+            ix[k].update(v)
+    for k, v in an.items():
+        if k in ix:
+            ix[k]["analysis"] = v
     sv = {k: r for k, r in ix.items() if r["screen"] == "survives"}
     print("survivors checked: %d, caught: %d" % (sum("checks" in r for r in sv.values()), sum(bool(r.get("caught")) for r in sv.values())))
     print("\n| mutant | properties run | verdict | analysis |\n|---|---|---|---|")
